@@ -158,7 +158,7 @@ def gen_message(rng, kind=None, size="small", tsig_ok=False):
         m.flags = dns.flags.Flag(flags)
         m.set_opcode(opcode)
         if rng.random() < 0.3:
-            origin = rng.choice(pool.suffixes[:-1])
+            origin = rng.choice(pool.suffixes[:-1]) if rng.random() < 0.85 else (b"",)  # the root is an origin too
             relative = True
         # question(s)
         nq = rng.choice((1, 1, 1, 0, 2))
@@ -272,6 +272,8 @@ def has_case_collision(m, extra=()):
     """True when two names in the message share a suffix up to ASCII case but spell it differently:
     then the compressor may legitimately substitute one spelling for the other (see DESIGN C01)."""
     names = list(extra)
+    if m.origin is not None:
+        names.append(m.origin)  # a name under the origin only up to case takes the origin's spelling when the parser relativizes it
     for sec in m.sections:
         for rr in sec:
             names.append(rr.name)
